@@ -2,6 +2,7 @@
 # builds the gosym engine from /verif/engine (offline)
 set -e
 export GOFLAGS=-mod=mod GOPROXY=off GOSUMDB=off GOTOOLCHAIN=local
-cd /verif/engine
-mkdir -p /verif/bin
-go build -o /verif/bin/gosym .
+ROOT="$(cd "$(dirname "$0")/.." && pwd)"
+cd "$ROOT/engine"
+mkdir -p "$ROOT/bin"
+go build -o "$ROOT/bin/gosym" .
